@@ -12,6 +12,12 @@ of `FUNCTIONS` are translated into `lean/Wee/Gen/SearchFns.lean` (namespace `Wee
 generated functions to REFINE the hand-written model (`quiesce`, `searchNode` of `Wee/Model/Search.lean`).  Anything outside the
 supported subset fails CLOSED: `TIE-BROKEN rs2lean_search: <reason>`, exit status 2.
 
+Stage 4e (class `IterEm`, further down, with its own TRUSTED PART 3): the statement `for depth in 0..max_depth { .. }` of
+`Searcher::analyze_iterative` is translated as a FRAGMENT into `Searcher.analyze_iterative.iteration` / `.loop` (monad `IM`: the loop's
+generator, the shared table, the polls of the token, the calls of the callback `f` as a list); the workers of one iteration run one after
+the other (ONE admissible schedule of the rayon map -- trusted reading).  `Wee/Proofs/SearchFnsBridge2.lean` bridges the whole of
+`analyze_recursive`, `Wee/Proofs/SearchIterBridge.lean` the loop (to `boundaryPoll` / `iterStep` / `iterLoop`).
+
 ======================================================================================================
 TRUSTED PART 1 -- semantics given to the Rust subset of this stage (additions to the tables of the earlier stages)
 ------------------------------------------------------------------------------------------------------
@@ -103,7 +109,7 @@ TAG = "rs2lean_search"
 # functions of `impl Searcher` translated here, in dependency order
 FUNCTIONS = ["calculate_extension_depth", "quiescence_search", "analyze_recursive"]
 # the other functions of `impl Searcher` (named, so that a NEW fn in the block is a broken tie)
-NOT_TRANSLATED = {"new": "constructor", "analyze": "threads / channels", "analyze_iterative": "only its `for` loop, as a fragment: stage 4c below",
+NOT_TRANSLATED = {"new": "constructor", "analyze": "threads / channels", "analyze_iterative": "only its `for` loop, as a fragment: stage 4e below",
                   "perft": "perft driver", "perft_recursive": "perft recursion"}
 # cells of the search monad: parameter name -> (mode, Rust type)
 CELLS = {"nodes_searched": ("refmut", "usize"), "rng": ("refmut", "ChaCha8Rng"),
@@ -302,7 +308,7 @@ ASSIGN_OPS = {"=", "+=", "-=", "*=", "/=", "%=", "|=", "&=", "^=", "<<=", ">>="}
 class P:
     def __init__(self, toks, ext=False):
         self.t, self.i, self.nostruct = toks, 0, 0
-        self.ext = ext            # extended syntax of the `analyze_iterative` fragment (stage 4c); off for the stage-4a functions
+        self.ext = ext            # extended syntax of the `analyze_iterative` fragment (stage 4e); off for the stage-4a functions
         self.dropped = []         # `#[cfg(weechess_verif)]` items dropped (ext only)
 
     def peek(self, o=0):
@@ -1883,7 +1889,7 @@ class Em:
         it_text = it.run()
         out.append(PRELUDE_ITER.strip("\n"))
         out.append("")
-        out.append("/-! ## Translated items, stage 4c -/")
+        out.append("/-! ## Translated items, stage 4e -/")
         out.append("")
         out.append(it_text)
         out.append("")
@@ -1899,7 +1905,7 @@ class Em:
 
 
 # ====================================================================================================
-# STAGE 4c -- the iterative-deepening loop of `Searcher::analyze_iterative` (a FRAGMENT: the statement `for depth in 0..max_depth { .. }`)
+# STAGE 4e -- the iterative-deepening loop of `Searcher::analyze_iterative` (a FRAGMENT: the statement `for depth in 0..max_depth { .. }`)
 # ====================================================================================================
 # TRUSTED PART 3 (additions for this fragment)
 #  fragment                             only the `for` statement of `analyze_iterative` is translated; the variables it uses that are declared
@@ -1963,7 +1969,7 @@ STATUS_EVENT = {"BestMove": [("evaluation", "Evaluation"), ("line", ("Vec", "Mov
                 "Progress": [("depth", "u32"), ("nodes_searched", "usize"), ("transposition_saturation", "f32")]}
 
 PRELUDE_ITER = r"""
-/-! ## Prelude of stage 4c: the iterative-deepening loop of `analyze_iterative` (fixed vocabulary; TRUSTED PART 3 of the tool) -/
+/-! ## Prelude of stage 4e: the iterative-deepening loop of `analyze_iterative` (fixed vocabulary; TRUSTED PART 3 of the tool) -/
 
 /-- `Result<T, SearchInterrupt>` as a VALUE (the loop matches on `Ok(..)` / `Err(SearchInterrupt)`) -/
 inductive SResult (α : Type) where
